@@ -30,15 +30,90 @@ def floats(h, s):
     return [k * 2.0 ** -s for k in h]
 
 
+def as_container(data, h, s):
+    """the same history as a list of floats, a tuple, a float array, or (on the unit grid) Python ints / an int64 array:
+    the input conversion of the implementation is part of what is compared (deterministic choice per history)"""
+    import numpy as np
+    k = (sum(h) * 31 + len(h) * 7 + (h[0] if h else 0)) % 8
+    if k == 1:
+        return tuple(data)
+    if k == 2:
+        return np.array(data, dtype=float)
+    if s == 0 and k == 3:
+        return [int(v) for v in h]
+    if s == 0 and k == 4:
+        # the narrowest integer dtype that holds the VALUES (their differences need not fit)
+        lo, hi = min(h), max(h)
+        for dt, a, b in ((np.uint8, 0, 255), (np.int8, -128, 127), (np.int16, -32768, 32767), (np.int32, -2 ** 31, 2 ** 31 - 1)):
+            if a <= lo and hi <= b and (sum(h) + len(h)) % 3 != 0:
+                return np.array(h, dtype=dt)
+        return np.array(h, dtype=np.int64)
+    return list(data)
+
+
+class with_atol:
+    """temporarily change ffpack.config.globalConfig.atol (the documented number of digits aggregated ranges are rounded to)"""
+
+    def __init__(self, digits):
+        self.digits = digits
+
+    def __enter__(self):
+        core.import_impl()
+        from ffpack.config import globalConfig
+        self.cfg, self.old = globalConfig, globalConfig.atol
+        globalConfig.atol = self.digits
+
+    def __exit__(self, *a):
+        self.cfg.atol = self.old
+
+
+def config_stream(res, names, cases, digits_choices=(0, 1, 2, 3)):
+    """cases: (h, s) with s < 0 (decimal grid).  With globalConfig.atol changed at run time, the aggregated table of every
+    counter is the histogram of its own cycle list with ranges rounded to THAT many digits (ascending distinct keys)."""
+    core.import_impl()
+    from ffpack import lcc
+    for idx, (h, s) in enumerate(cases):
+        digits = digits_choices[(sum(h) + idx) % len(digits_choices)]
+        for name in names:
+            if not valid_for(name, h) or len(set(h)) < 2:
+                continue
+            f = getattr(lcc, API[name])
+            data = floats(h, s)
+            res.evaluations += 1
+            res.stat('config_atol_%d' % digits)
+            try:
+                with with_atol(digits):
+                    seq = f(list(data), aggregate=False)
+                    agg = f(list(data), aggregate=True)
+            except Exception as e:  # noqa
+                res.failures.append({'signature': f'{res.pid}:{name}:config-atol:{type(e).__name__}:{enc_list(h)}:{s}:{digits}',
+                                     'clause': 'valid history raised under a changed globalConfig.atol: ' + repr(e)[:120],
+                                     'api': API[name], 'input': h, 'scale': s, 'atol_digits': digits})
+                continue
+            seq = [] if seq == [[]] else seq
+            agg = [] if agg == [[]] else agg
+            want = {}
+            for a, b, c in seq:
+                k = float(round(abs(b - a), digits))      # same number type (np.float64) and rounding as the implementation
+                want[k] = want.get(k, 0) + float(c)
+            want = sorted(want.items())
+            got = [(float(k), float(c)) for k, c in agg]
+            if len(got) != len(want) or any(abs(g[0] - w[0]) > 1e-12 or g[1] != w[1] for g, w in zip(got, want)):
+                res.failures.append({'signature': f'{res.pid}:{name}:config-atol:histogram:{enc_list(h)}:{s}:{digits}',
+                                     'clause': 'aggregated table is not the histogram of the cycle list at globalConfig.atol = %d digits' % digits,
+                                     'api': API[name], 'input': h, 'scale': s, 'atol_digits': digits,
+                                     'impl_output': {'table': got[:8], 'histogram_of_own_cycles': want[:8]}})
+
+
 def run_impl(name, h, s):
     """-> {'seq': [(a,b,u)], 'table': [(k,u)]} on the integer grid, or {'error': kind}"""
     core.import_impl()
     from ffpack import lcc
     f = getattr(lcc, API[name])
-    data = floats(h, s)
+    data = as_container(floats(h, s), h, s)
     try:
-        seq = f(list(data), aggregate=False)
-        agg = f(list(data), aggregate=True)
+        seq = f(data, aggregate=False)
+        agg = f(as_container(floats(h, s), h, s), aggregate=True)
     except ValueError:
         return {'error': 'ValueError'}
     except Exception as e:  # noqa
